@@ -90,6 +90,20 @@ func (g *generator) walkSchemaRef(schemaRef *openapi3.SchemaRef) (ast.Type, erro
 }
 
 func (g *generator) walkDefinitions(schema *openapi3.Schema) (ast.Type, error) {
+	def, err := g.walkDefinitionsIgnoringNullable(schema)
+	if err != nil {
+		return def, err
+	}
+
+	// `nullable: true` applies to every kind of schema: booleans, arrays, objects, enums, ...
+	if schema.Nullable {
+		def.Nullable = true
+	}
+
+	return def, nil
+}
+
+func (g *generator) walkDefinitionsIgnoringNullable(schema *openapi3.Schema) (ast.Type, error) {
 	if schema.AllOf != nil {
 		return g.walkAllOf(schema)
 	}
